@@ -59,9 +59,9 @@ Lemma pump_fuel cf now cs fuel : forall c sock sfds led o,
 Proof.
   induction fuel as [|fuel IH]; intros c sock sfds led o Hf; [lia|].
   cbn [pump].
-  assert (Hfs : (msr sock < fuel_for sock)%nat) by (unfold fuel_for, msr; lia).
-  pose proof (do_reading_fuel cf now (fuel_for sock) c sock sfds led [] 0 Hfs) as R.
-  destruct (do_reading (fuel_for sock) cf now c sock sfds led [] 0) as [[[c1 q] led1] rs].
+  assert (Hfs : (msr sock < S fuel)%nat) by exact Hf.
+  pose proof (do_reading_fuel cf now (S fuel) c sock sfds led [] 0 Hfs) as R.
+  destruct (do_reading (S fuel) cf now c sock sfds led [] 0) as [[[c1 q] led1] rs].
   destruct R as [A B].
   destruct (dispatch_all cf cs (c_id c) (sender_gone rs) q led1) as [o1 led2].
   destruct rs as [|rest| | | |]; try (split; [unfold fuel_ok|intros ?]; discriminate).
